@@ -130,10 +130,14 @@ def run_harnesses(run, harnesses, procs=16, twins=True):
             if r["twin"]:
                 if r["status"] == "counterexample":
                     run.count("twin_refuted")
-                else:
-                    # the twin could not show the end of the harness is reachable
+                elif r["status"] == "confirmed":
+                    # 'post: not _' holds on every path: the harness can never return True -> vacuous or wrong harness
                     run.count("twin_not_refuted")
-                    run.harness_error(f"harness {h.name}: reachability twin not refuted ({r['status']}): {r['raw'][-200:]}")
+                    run.harness_error(f"harness {h.name}: reachability twin CONFIRMED (the harness never returns true)")
+                else:
+                    # no verdict within the twin's budget (machine under load): recorded, not an error
+                    run.count("twin_inconclusive")
+                    run.inconc(f"harness {h.name}: reachability twin gave no verdict ({r['status']})")
                 continue
             run.count(f"ch:{r['status']}")
             run.solver_s += r["wall"]
